@@ -452,6 +452,20 @@ Definition owners (U : list var) (vs : var -> option block) (b : block) : nat :=
 
 Definition universe (p : prog) : list var := globals p ++ flat_map ph_locals (phases p).
 
+(* the invariant of the protocol: a live counter equals the number of variables that point to its
+   block and is positive; no variable points into released storage; released blocks are never
+   handed out again; the log of releases holds every released block exactly once *)
+Definition rinv (U : list var) (vs : var -> option block) (c : block -> option nat) (nx : block)
+           (fr : list block) : Prop :=
+  (forall b n, c b = Some n -> n = owners U vs b /\ 1 <= n) /\
+  (forall x b, In x U -> vs x = Some b -> c b <> None) /\
+  (forall b, nx <= b -> c b = None) /\
+  (forall b, count_occ Nat.eq_dec fr b =
+             match c b with Some _ => 0 | None => if Nat.ltb b nx then 1 else 0 end).
+
+Definition refcount_inv (U : list var) (st : mstate) : Prop :=
+  rinv U (vars st) (cnt st) (nxt st) (frees st).
+
 (* ------------------------------------------------------------------ well-formed programs
    (decidable; evaluated on every case of the correspondence run) *)
 Fixpoint nodupb (l : list nat) : bool :=
@@ -468,8 +482,10 @@ Definition stmt_vars (s : stmt) : list var :=
 
 Definition stmt_wf (scope : list var) (s : stmt) : bool :=
   subset (stmt_vars s) scope &&
+  subset (reads s) (mentions s) &&
   match kind s with
   | KMove d src => negb (Nat.eqb d src)      (* SelfDependencyEliminator has run *)
+                   && memv src (mentions s)  (* the source of a move is read by the statement *)
   | _ => true
   end.
 
@@ -478,7 +494,7 @@ Definition phase_wf (globs : list var) (ph : phase) : bool :=
   forallb (stmt_wf (globs ++ ph_locals ph)) all && nodupb (map sid all).
 
 Definition prog_wf (p : prog) : bool :=
-  nodupb (universe p) && subset (initable p) (globals p) &&
+  nodupb (universe p) && subset (initable p) (globals p) && nodupb (initable p) &&
   forallb (phase_wf (globals p)) (phases p).
 
 (* ------------------------------------------------------------------ checker used by the correspondence run *)
